@@ -28,21 +28,53 @@ def wsum (l : List (K × K)) : K := (l.map (fun b => b.1 * b.2)).sum
 
 /-! ## the weighted centroid -/
 
-theorem centroid_gt {v1 f1 v2 f2 : K} (hv : v1 < v2) (h1 : 0 < f1) (h2 : 0 < f2) :
-    v1 < centroid v1 f1 v2 f2 := by
-  unfold centroid Gen.DistogramExpr.trimCentre
+/-- the centre `_trim` computes lies strictly inside the pair -/
+theorem trimCentre_gt {v1 f1 v2 f2 : K} (hv : v1 < v2) (h1 : 0 < f1) (h2 : 0 < f2) :
+    v1 < Gen.DistogramExpr.trimCentre v1 f1 v2 f2 := by
+  unfold Gen.DistogramExpr.trimCentre
   rw [lt_div_iff₀ (by linarith)]
   nlinarith
 
-theorem centroid_lt {v1 f1 v2 f2 : K} (hv : v1 < v2) (h1 : 0 < f1) (h2 : 0 < f2) :
-    centroid v1 f1 v2 f2 < v2 := by
-  unfold centroid Gen.DistogramExpr.trimCentre
+theorem trimCentre_lt {v1 f1 v2 f2 : K} (hv : v1 < v2) (h1 : 0 < f1) (h2 : 0 < f2) :
+    Gen.DistogramExpr.trimCentre v1 f1 v2 f2 < v2 := by
+  unfold Gen.DistogramExpr.trimCentre
   rw [div_lt_iff₀ (by linarith)]
   nlinarith
 
-theorem centroid_mul {v1 f1 v2 f2 : K} (h1 : 0 < f1) (h2 : 0 < f2) :
+theorem pyMin_eq (a b : K) : Gen.DistogramOps.pyMin a b = if b < a then b else a := rfl
+theorem pyMax_eq (a b : K) : Gen.DistogramOps.pyMax a b = if a < b then b else a := rfl
+
+/-- **The stored centre lies within the pair, whatever was computed** (`min(max(centre, v1), v2)`): no hypothesis on
+`c` — this is what keeps the centres strictly increasing and inside the bounds when the division is rounded. -/
+theorem trimStored_within (c : K) {v1 v2 : K} (h : v1 ≤ v2) :
+    v1 ≤ Gen.DistogramOps.trimStored c v1 v2 ∧ Gen.DistogramOps.trimStored c v1 v2 ≤ v2 := by
+  unfold Gen.DistogramOps.trimStored
+  rw [pyMin_eq, pyMax_eq]
+  split_ifs <;> constructor <;> linarith
+
+/-- a computed centre that is inside the pair is stored as it is -/
+theorem trimStored_of_between {c v1 v2 : K} (h1 : v1 ≤ c) (h2 : c ≤ v2) : Gen.DistogramOps.trimStored c v1 v2 = c := by
+  unfold Gen.DistogramOps.trimStored
+  rw [pyMin_eq, pyMax_eq]
+  split_ifs <;> first | rfl | (apply le_antisymm <;> linarith) | (exfalso; linarith)
+
+/-- in exact arithmetic the stored centre is the computed one -/
+theorem centroid_eq {v1 f1 v2 f2 : K} (hv : v1 < v2) (h1 : 0 < f1) (h2 : 0 < f2) :
+    centroid v1 f1 v2 f2 = Gen.DistogramExpr.trimCentre v1 f1 v2 f2 :=
+  trimStored_of_between (le_of_lt (trimCentre_gt hv h1 h2)) (le_of_lt (trimCentre_lt hv h1 h2))
+
+theorem centroid_gt {v1 f1 v2 f2 : K} (hv : v1 < v2) (h1 : 0 < f1) (h2 : 0 < f2) :
+    v1 < centroid v1 f1 v2 f2 := by
+  rw [centroid_eq hv h1 h2]; exact trimCentre_gt hv h1 h2
+
+theorem centroid_lt {v1 f1 v2 f2 : K} (hv : v1 < v2) (h1 : 0 < f1) (h2 : 0 < f2) :
+    centroid v1 f1 v2 f2 < v2 := by
+  rw [centroid_eq hv h1 h2]; exact trimCentre_lt hv h1 h2
+
+theorem centroid_mul {v1 f1 v2 f2 : K} (hv : v1 < v2) (h1 : 0 < f1) (h2 : 0 < f2) :
     centroid v1 f1 v2 f2 * (f1 + f2) = v1 * f1 + v2 * f2 := by
-  unfold centroid Gen.DistogramExpr.trimCentre
+  rw [centroid_eq hv h1 h2]
+  unfold Gen.DistogramExpr.trimCentre
   have : f1 + f2 ≠ 0 := by linarith
   field_simp
 
@@ -135,23 +167,24 @@ theorem mergeAt_mass (i : Nat) : ∀ (l : List (K × K)), mass (mergeAt i l) = m
       simp only [mass] at this
       simp only [mergeAt, mass, List.map_cons, List.sum_cons, this]
 
-theorem mergeAt_wsum (i : Nat) : ∀ (l : List (K × K)), Pos l → wsum (mergeAt i l) = wsum l := by
+theorem mergeAt_wsum (i : Nat) : ∀ (l : List (K × K)), Inc l → Pos l → wsum (mergeAt i l) = wsum l := by
   induction i with
   | zero =>
-    intro l hp
-    match l, hp with
-    | [], _ => rfl
-    | [a], _ => rfl
-    | (v1, f1) :: (v2, f2) :: rest, hp =>
+    intro l hi hp
+    match l, hi, hp with
+    | [], _, _ => rfl
+    | [a], _, _ => rfl
+    | (v1, f1) :: (v2, f2) :: rest, hi, hp =>
+      have hv : v1 < v2 := (List.pairwise_cons.mp hi).1 (v2, f2) (by simp)
       have h1 : 0 < f1 := hp (v1, f1) (by simp)
       have h2 : 0 < f2 := hp (v2, f2) (by simp)
-      simp only [mergeAt, wsum, List.map_cons, List.sum_cons, trimCount_eq, centroid_mul h1 h2]; ring
+      simp only [mergeAt, wsum, List.map_cons, List.sum_cons, trimCount_eq, centroid_mul hv h1 h2]; ring
   | succ n ih =>
-    intro l hp
-    match l, hp with
-    | [], _ => rfl
-    | a :: rest, hp =>
-      have := ih rest (fun b hb => hp b (by simp [hb]))
+    intro l hi hp
+    match l, hi, hp with
+    | [], _, _ => rfl
+    | a :: rest, hi, hp =>
+      have := ih rest (List.pairwise_cons.mp hi).2 (fun b hb => hp b (by simp [hb]))
       simp only [wsum] at this
       simp only [mergeAt, wsum, List.map_cons, List.sum_cons, this]
 
@@ -420,8 +453,13 @@ theorem bumpBounds_min (h : Hist K) (v : K) : (bumpBounds h v).min = some (minO 
     simp only [Gen.DistogramFlow.bumpMin, decide_eq_true_eq]
       <;> (simp only [Option.some.injEq]; split_ifs <;> first | rfl | (apply le_antisymm <;> linarith) | (exfalso; linarith))
 
+/-- The two bound updates of `update` are independent statements: the maximum is examined whether or not the minimum
+moved (`if … if …`, not `if … elif …` — the first value of a stream moves both). -/
+theorem bumpChained_eq : Gen.DistogramOps.bumpChained = false := rfl
+
 theorem bumpBounds_max (h : Hist K) (v : K) : (bumpBounds h v).max = some (maxO h.max v) := by
   unfold bumpBounds maxO
+  simp only [bumpChained_eq, Bool.false_and, Bool.false_eq_true, if_false]
   cases h.max with
   | none => rfl
   | some m =>
@@ -467,5 +505,123 @@ theorem update_def (h : Hist K) (value count : K) : update h value count =
   unfold update
   simp only [Gen.DistogramFlow.updCountBad, Gen.DistogramFlow.hitTest, Gen.DistogramFlow.hitCount, decide_eq_true_eq]
   rfl
+
+/-! ## The statements around the update path are the model's (`Gen.DistogramOps.*`, regenerated on every run)
+
+`__add__`, `bulkload`, the append bookkeeping of `update`, `_update_diffs`, the positions of `_trim`: each lemma restates
+one model function over the generated tests, expressions and positions in the form the proofs unfold.  A changed test
+(`operand.min is not None` turned into a truthiness test), operator, offset (`pop(i + 1)`), or guard (`i < len - 1`)
+breaks the lemma here. -/
+
+theorem pyMin_def (a b : K) : Gen.DistogramOps.pyMin a b = if b < a then b else a := rfl
+theorem pyMax_def (a b : K) : Gen.DistogramOps.pyMax a b = if a < b then b else a := rfl
+
+/-- the lowering test of `_update_diffs` is `new gap < min_diff` -/
+theorem ltMinDiff_def (x : K) (m : Option K) :
+    ltMinDiff x m = (match m with | none => true | some y => decide (x < y)) := rfl
+
+/-- the stale-minimum test of `_update_diffs` is `old entry == min_diff` -/
+theorem eqMinDiff_def (x : K) (m : Option K) :
+    eqMinDiff x m = (match m with | none => false | some y => eqK x y) := rfl
+
+/-- `_update_diffs` stores `bins[j + 1] - bins[j]` at cache position `j` -/
+theorem diffBlock_def (bins : List (K × K)) (st : List K × Option K × Bool) (c : Bool) (j : Nat) :
+    diffBlock bins st c j =
+      if c then
+        match bins[j + 1]?, bins[j]? with
+        | some bn, some bi => pointUpdate st j (bn.1 - bi.1)
+        | _, _ => .error "IndexError"
+      else .ok st := rfl
+
+/-- `_update_diffs(h, i)` refreshes the gap left of bin `i` iff `i > 0` and the gap right of it iff `i` is not the last bin -/
+theorem updateDiffs_def (h : Hist K) (i : Nat) : updateDiffs h i =
+    match h.diffs with
+    | none => .ok h
+    | some d0 =>
+      (diffBlock h.bins (d0, h.minDiff, false) (decide (0 < i)) (i - 1)).bind fun s1 =>
+      (diffBlock h.bins s1 (decide (i + 1 < h.bins.length)) i).bind fun s2 =>
+      (finishMin s2).bind fun md =>
+      .ok { h with diffs := some s2.1, minDiff := md } := by
+  have e1 : Gen.DistogramOps.udLeft (i : Int) (h.bins.length : Int) = decide (0 < i) := by
+    simp [Gen.DistogramOps.udLeft]
+  have e2 : Gen.DistogramOps.udRight (i : Int) (h.bins.length : Int) = decide (i + 1 < h.bins.length) := by
+    unfold Gen.DistogramOps.udRight
+    exact decide_eq_decide.mpr (by omega)
+  unfold updateDiffs
+  rw [e1, e2]
+  cases h.diffs <;> rfl
+
+/-- one turn of `_trim` reads bin `i`, pops bin `i + 1`, stores the merged bin at `i`, pops cache entry `i` and
+refreshes the cache around `i` -/
+theorem trimStep_def (h : Hist K) : trimStep h =
+    (trimIndex h).bind fun i =>
+    match h.bins[i]?, h.bins[i + 1]? with
+    | some (v1, f1), some (v2, f2) =>
+      let bins := (h.bins.eraseIdx (i + 1)).set i (centroid v1 f1 v2 f2, Gen.DistogramExpr.trimCount v1 f1 v2 f2)
+      match h.diffs with
+      | some d =>
+        if d.length ≤ i then .error "IndexError" else
+        (updateDiffs { h with bins := bins, diffs := some (d.eraseIdx i) } i).bind fun h1 =>
+        match h1.diffs.bind listMin with
+        | some m => .ok { h1 with minDiff := some m }
+        | none => .error "ValueError"
+      | none => .ok { h with bins := bins }
+    | _, _ => .error "IndexError" := rfl
+
+/-- an append lowers the cached minimum to the new last gap when that is smaller (`min(h.min_diff, diff)`) -/
+theorem insertBin_def (h : Hist K) (neg : Bool) (idx : Nat) (value count : K) : insertBin h neg idx value count =
+    if neg then
+      match h.diffs, h.bins.getLast? with
+      | some d, some bl =>
+        let diff := value - bl.1
+        .ok { h with bins := h.bins ++ [(value, count)], diffs := some (d ++ [diff]),
+                     minDiff := some (match h.minDiff with
+                                      | none => diff
+                                      | some m => if diff < m then diff else m) }
+      | _, _ => .ok { h with bins := h.bins ++ [(value, count)] }
+    else
+      match h.diffs with
+      | some d =>
+        updateDiffs { h with bins := h.bins.insertIdx idx (value, count), diffs := some (d.insertIdx idx (0 : K)) } idx
+      | none => .ok { h with bins := h.bins.insertIdx idx (value, count) } := rfl
+
+/-- `__add__`: the right operand contributes its bounds iff it has a minimum (`operand.min is not None` — not a
+truthiness test: a minimum of exactly zero counts), and the bounds of the sum are the smaller minimum / larger maximum -/
+theorem add_def (h t : Hist K) : add h t =
+    (merge h t.bins).bind fun m =>
+    match m.min, m.max, t.min, t.max with
+    | some a, some b, some c, some d =>
+      .ok { m with min := some (if c < a then c else a), max := some (if b < d then d else b) }
+    | _, _, none, _ => .ok m
+    | _, _, _, _ => .error "TypeError" := by
+  unfold add
+  congr 1
+  funext m
+  simp only [Gen.DistogramOps.addGuard, Gen.DistogramOps.addMin, Gen.DistogramOps.addMax, pyMin_def, pyMax_def]
+  cases t.min <;> cases t.max <;> cases m.min <;> cases m.max <;> simp
+
+/-- `bulkload`: pairs with `count > 0` are inserted; without bounds the data's bounds are taken, else the smaller
+minimum / larger maximum -/
+theorem bulk_def (h : Hist K) (pairs : List (K × K)) (lo hi : K) : bulk h pairs lo hi =
+    ((pairs.filter (fun p => decide (0 < p.2))).foldlM (fun acc b => update acc b.1 b.2) h).bind fun m =>
+    match m.min, m.max with
+    | some a, some b =>
+      .ok { m with min := some (if lo < a then lo else a), max := some (if b < hi then hi else b) }
+    | none, _ => .ok { m with min := some lo, max := some hi }
+    | some _, none => .error "TypeError" := by
+  unfold bulk
+  have e : (fun p : K × K => Gen.DistogramOps.bulkTake p.2) = fun p => decide (0 < p.2) := rfl
+  rw [e]
+  congr 1
+  funext m
+  simp only [Gen.DistogramOps.bulkFresh, Gen.DistogramOps.bulkMin, Gen.DistogramOps.bulkMax, pyMin_def, pyMax_def]
+  cases m.min <;> cases m.max <;> simp
+
+/-- `bulkload` sends an array through numpy.histogram iff it has MORE than `limit * bulkFactor` distinct values: an
+array with exactly that many is inserted value by value (and so keeps the exact mean). -/
+theorem bulkAbove_iff (distinct cap : Nat) :
+    Gen.DistogramOps.bulkAbove (distinct : Int) (cap : Int) = true ↔ cap * Gen.Distogram.bulkFactor < distinct := by
+  simp only [Gen.DistogramOps.bulkAbove, Gen.Distogram.bulkFactor, decide_eq_true_eq]
+  omega
 
 end Distogram
